@@ -136,9 +136,9 @@ PROPS = {
         'level': 'proof',
         'technique': 'Verus per-hop invariant (hop_wf) preserved by update_for_probe/apply; exact integer aggregation clauses; float statistics abstracted',
         'level_text': 'For every round and every probe: received+failed <= sent, forward+backward loss <= sent-received-failed, address counts sum to received, best <= worst, last/best/worst present iff something was received, sample history newest-first and never longer than max_samples; sent/received/failed counters, last (rtt = receive - send), best = min, worst = max and the last-probe details are updated exactly as a recomputation from the round would. Holds after any history because it is an inductive invariant of FlowState.',
-        'level_note': 'NOT covered (not applicable within C05): avg, stddev, jitter (javg, jinta, jmax), loss percentages - floating point recurrences, abstracted by havoc shims (T6). is_forward_loss (iterator adapters: skip_while / peekable / all) cannot be read by Verus: it carries the ASSUMED contract r == spec_forward_loss(probes, ttl) (the documented meaning, written as a spec predicate), checked against the real function only by the BOUNDED Kani harness k_is_forward_loss_contract (3 slots); its caller update_for_probe is PROVED against that contract: an awaited probe after the forward-loss hop of the round counts as backward loss, the first awaited hop for which spec_forward_loss holds counts as forward loss and sets the per-round flag, any other awaited hop counts as neither. IndexMap is modelled by ghost counts (addrs_incr shim). The millisecond / percentage accessors (last_ms, best_ms, worst_ms, jitter_ms, jmax_ms, avg_ms, loss_pct) are checked by BOUNDED Kani harnesses against an independently written conversion on a grid of durations (symbolic IEEE-754 conversion of 32-bit values timed out in CBMC): labelled bounded, not counted as proved.',
+        'level_note': 'NOT covered (not applicable within C05): avg, stddev, jitter (javg, jinta, jmax), loss percentages - floating point recurrences, abstracted by havoc shims (T6). is_forward_loss (iterator adapters: skip_while / peekable / all) cannot be read by Verus: it carries the ASSUMED contract r == spec_forward_loss(probes, ttl) (the documented meaning, written as a spec predicate), checked against the real function only by the BOUNDED Kani harnesses k_is_forward_loss_contract (3 slots, ttl 1,2,3) and k_is_forward_loss_contract_sym (4 slots, each ttl any of 1..=6 in any order); its caller update_for_probe is PROVED against that contract: an awaited probe after the forward-loss hop of the round counts as backward loss, the first awaited hop for which spec_forward_loss holds counts as forward loss and sets the per-round flag, any other awaited hop counts as neither. IndexMap is modelled by ghost counts (addrs_incr shim). The millisecond / percentage accessors (last_ms, best_ms, worst_ms, jitter_ms, jmax_ms, avg_ms, loss_pct) are checked by BOUNDED Kani harnesses against an independently written conversion on a grid of durations (symbolic IEEE-754 conversion of 32-bit values timed out in CBMC): labelled bounded, not counted as proved.',
         'units': ['core_state'],
-        'kani': {'quick': ['k_is_forward_loss_contract', 'k_hop_ms_accessors', 'k_hop_avg_and_loss']},
+        'kani': {'quick': ['k_is_forward_loss_contract', 'k_is_forward_loss_contract_sym', 'k_hop_ms_accessors', 'k_hop_avg_and_loss']},
         'assumptions': ['fewer than 2^48 rounds (usize counters do not overflow)', 'Duration addition does not overflow'],
         'not_applicable_parts': ['floating-point recurrences: stddev (mean / m2), javg, jinta and the jitter update inside update_for_probe'],
         'explanation': 'per-hop statistics',
